@@ -437,6 +437,11 @@ int main()
       H::emit("Q %d %d %d", I(1), r.e->is_satisfied() ? 1 : 0, r.e->is_saturated() ? 1 : 0);
     }
     else if (op == "call") { do_call(I(1), t.at(2), I(3), t.size() > 4 ? I(4) : 0); }
+    else if (op == "callx")
+    {
+      // the same call, issued from inside an exception handler (std::current_exception() is non-null)
+      try { throw 7; } catch (int) { do_call(I(1), t.at(2), I(3), t.size() > 4 ? I(4) : 0); }
+    }
     else if (op == "tr")
     {
       TracerRec r{I(1), nullptr, nullptr};
